@@ -71,7 +71,7 @@ type Case struct {
 	Workers   []WorkerCfg `json:"workers"`
 	Decs      []Dec       `json:"decs"`
 	Faults    []Fault     `json:"faults,omitempty"`
-	Shutdown  bool        `json:"shutdown,omitempty"` // shutdown moves are enabled
+	Shutdown  bool        `json:"shutdown,omitempty"`   // shutdown moves are enabled
 	HonourCtx bool        `json:"honour_ctx,omitempty"` // the storage refuses calls whose context is done (as a networked backend does)
 }
 
